@@ -19,6 +19,11 @@ def main(tier):
                                  twin='_c13_reach' if (n >= 2 and mode in (1, 2)) else None, twin_timeout=60,
                                  label=f'order n={n} concurrency={[None, "threads", "processes", "bogus"][mode]} {"own" if own else "caller"} executor',
                                  bounds={'files': n, 'completion orders': 'all permutations', 'failing file': 'none or any position', 'max_workers': '1..3'}))
+    for smode in range(3):
+        jobs.append(dict(path=H, fname='_c13_scale', params={'n': 1, 'smode': smode}, timeout=400, self_reach=True,
+                         label=f'batch sizes up to 3000 files, concurrency={[None, "threads", "processes"][smode]}',
+                         bounds={'files': [0, 1, 2, 7, 33, 100, 257, 513, 1025, 3000], 'completion orders': 'as submitted / reversed / interleaved from both ends / rotated',
+                                 'failing file': 'none / first / middle / last', 'executor': 'own / caller-supplied', 'workers': 'stubbed (per-file tags)'}))
     for hmode in range(3):
         for b0 in range(7):
             jobs.append(dict(path=H, fname='_c13_history', params={'n': 1, 'hmode': hmode, 'b0': b0}, timeout=300, self_reach=True,
